@@ -246,22 +246,31 @@ open Req.Pool.H3Map
 def st1 (s : St) (op : Op) : St × Bool := let r := step s op; (r.1, r.2 != .ignored)
 
 /-- what happens on its own -/
-def settle (nc nr : Nat) : Nat → St → St
+def settle (nc nr : Nat) (only : Nat → Bool) : Nat → St → St
   | 0, s => s
   | fuel + 1, s =>
     -- a client closed by us while its dial runs: the dial's context is cancelled
     let r1 := (List.range nc).foldl (fun (a : St × Bool) c =>
       if (a.1.cl c).closedByUs && (a.1.cl c).dial == .running && (a.1.cl c).host.isSome then
-        ((step a.1 (.dialDone c false)).1, true) else a) (s, false)
+        ((step a.1 (.dialDone c .failed)).1, true) else a) (s, false)
     -- the dial runs under the context of the request that created the client: when that
     -- request has given up, the dial fails
     let r1 := (List.range nc).foldl (fun (a : St × Bool) c =>
       if (a.1.cl c).dial == .running && (a.1.cl c).host.isSome && a.1.rst (a.1.cl c).creator == .over then
-        ((step a.1 (.dialDone c false)).1, true) else a) r1
+        ((step a.1 (.dialDone c .cancelled)).1, true) else a) r1
+    -- a request whose dial was cancelled together with the request that had started it starts
+    -- over: `RoundTripOpt` again with the same options, i.e. `getClient` for the same host (an
+    -- OnlyCachedConn request that had joined the running dial now finds nothing cached)
+    let r1 := (List.range nr).foldl (fun (a : St × Bool) r =>
+      match a.1.rst r, a.1.rhost r with
+      | .holding _, some h =>
+        let x := st1 a.1 (.retryDial r)
+        if x.2 then ((step x.1 (.get r h (only r))).1, true) else a
+      | _, _ => a) r1
     -- a request that waited for a dial that failed returns
     let r2 := (List.range nr).foldl (fun (a : St × Bool) r =>
       let x := st1 a.1 (.dialFailed r); (x.1, a.2 || x.2)) r1
-    if r2.2 then settle nc nr fuel r2.1 else r2.1
+    if r2.2 then settle nc nr only fuel r2.1 else r2.1
 
 def dump (nc nr : Nat) (s : St) : String :=
   let m := (s.clients.foldr (fun p acc => Req.Driver.L.C09.insertSortedH3 p acc) []).map
@@ -283,7 +292,7 @@ end H3Lane
 def parseH3Op (s : String) : Option Req.Pool.H3Map.Op :=
   match s.splitOn "." with
   | ["S", r, h, oc] => do pure (.get (← r.toNat?) (← h.toNat?) (← parseB oc))
-  | ["D", c, ok] => do pure (.dialDone (← c.toNat?) (← parseB ok))
+  | ["D", c, ok] => do pure (.dialDone (← c.toNat?) (if (← parseB ok) then .ok else .failed))
   | ["X", c] => do pure (.connDies (← c.toNat?))
   | ["U", r] => do pure (.giveUp (← r.toNat?))
   | ["F", r, ce] => do pure (.finish (← r.toNat?) (← parseB ce))
@@ -295,13 +304,26 @@ def laneH3Map : List String → String
   | [nc, nr, ops] =>
     match nc.toNat?, nr.toNat?, (if ops == "-" then some [] else (ops.splitOn ",").mapM parseH3Op) with
     | some nc, some nr, some os =>
+      let only : Nat → Bool := fun r => os.any fun op =>
+        match op with
+        | .get r' _ oc => r' == r && oc
+        | _ => false
       let r := os.foldl (fun (acc : Req.Pool.H3Map.St × List String) op =>
         let x := Req.Pool.H3Map.step acc.1 op
+        -- the request that started a dial gives up while two or more others wait for it: they all
+        -- dial again, and which of them gets to start the new dial is up to the Go scheduler
+        let racy := match op with
+          | .giveUp r =>
+            match acc.1.rst r with
+            | .holding c => (acc.1.cl c).creator == r &&
+                ((List.range nr).filter (fun r' => r' != r && acc.1.rst r' == .holding c)).length ≥ 2
+            | _ => false
+          | _ => false
         -- `S` with onlyCached and nothing cached is a real call (returns ErrNoCachedConn); any other
         -- ignored op is outside the calling protocol
-        if x.2 == .ignored then (acc.1, "skip" :: acc.2)
+        if x.2 == .ignored || racy then (acc.1, "skip" :: acc.2)
         else
-          let s2 := H3Lane.settle nc nr 16 x.1
+          let s2 := H3Lane.settle nc nr only 16 x.1
           (s2, H3Lane.dump nc nr s2 :: acc.2)) ({}, [])
       ";".intercalate r.2.reverse
     | _, _, _ => "bad-op"
